@@ -112,6 +112,9 @@ class Tracker:
                 return [('SLICE', self.key(nid, sl.lower) if sl.lower is not None else None,
                          None, {'slice': sl})]
             return [('SELECT', self.selkey(nid, sl), None, {'selector': sl})]
+        cf = self._comp_filter(nid, T, value)
+        if cf is not None:
+            return [('SELECT', cf, None, {'selector': value})]
         if cn in CONCAT_CALLS:
             parts = self._concat_parts(value)
             if parts is not None:
@@ -174,6 +177,38 @@ class Tracker:
 
     def _is_rows(self, T):
         return False
+
+    def _comp_filter(self, nid, T, value):
+        """[x for x, m in zip(T, M) if <cond on m>]  /  [x for x in T if ...] wrapped or not
+        in list()/np.array(): a row selection of T.  Returns the selector key (the condition
+        with the mask variable replaced by M), or None."""
+        v = value
+        while isinstance(v, ast.Call) and dotted(v.func) in ('list', 'np.array', 'np.asarray',
+                                                             'tuple') and v.args:
+            v = v.args[0]
+        if not isinstance(v, (ast.ListComp, ast.GeneratorExp)) or len(v.generators) != 1:
+            return None
+        g = v.generators[0]
+        if len(g.ifs) != 1 or not isinstance(v.elt, ast.Name):
+            return None
+        it, tgt = g.iter, g.target
+        if isinstance(it, ast.Call) and dotted(it.func) == 'zip' and len(it.args) == 2 and \
+                isinstance(tgt, ast.Tuple) and len(tgt.elts) == 2 and \
+                all(isinstance(e, ast.Name) for e in tgt.elts):
+            if not self.same_place(it.args[0], T) or tgt.elts[0].id != v.elt.id:
+                return None
+            mvar, M = tgt.elts[1].id, it.args[1]
+            import copy
+
+            class _Sub(ast.NodeTransformer):
+                def visit_Name(self, n):
+                    if n.id == mvar and isinstance(n.ctx, ast.Load):
+                        return copy.deepcopy(M)
+                    return n
+            cond = _Sub().visit(copy.deepcopy(g.ifs[0]))
+            ast.fix_missing_locations(cond)
+            return self.selkey(nid, cond)
+        return None
 
     def _mentions(self, value, T):
         t = unparse(T)
